@@ -129,12 +129,7 @@ Definition explained (W : world) (v : value) (o : obs) (clause : bool) : bool :=
 Definition class_array (c : ccase) : bool := let '(W, v, o) := c in explained W v o (g_array W v).
 Definition class_enum (c : ccase) : bool := let '(W, v, o) := c in explained W v o (g_enum W v).
 Definition class_imports (c : ccase) : bool := let '(W, v, o) := c in explained W v o (g_imports W v).
-Definition class_raw_qname (c : ccase) : bool :=
-  let '(W, v, o) := c in
-  explained W v o (forallb (fun u => match u with VQName t => dq_safe t | _ => true end) (subs W v)).
-Definition class_raw_xml (c : ccase) : bool :=
-  let '(W, v, o) := c in
-  explained W v o (forallb (fun u => match u with VDuration t => dq_safe t | VPeriod t => dq_safe t | _ => true end) (subs W v)).
+Definition class_raw_qname (c : ccase) : bool := let '(W, v, o) := c in explained W v o (g_raw W v).
 Definition class_init (c : ccase) : bool := let '(W, v, o) := c in explained W v o (g_init W v).
 Definition class_std (c : ccase) : bool := let '(W, v, o) := c in explained W v o (g_std W v).
 
